@@ -20,12 +20,12 @@ ev = {
  "coverage": {
   "evaluations": tot("runs") + sum(p["runs"] for p in sysparts),
   "distinct_nontrivial": tot("distinct_nontrivial_runs"),
-  "rule": "one evaluation = one simulated run: 1-4 real caller threads (only one runs at a time; the simulator decides at every sink write, at every operation boundary and - in about half of the multi-threaded runs - at every allocation the library makes inside a display (and, in the f64-fnseam configuration, at every function entry and atomic operation of the library's display path), who proceeds), each performing 1-5 Display operations (quantity value / unit / rate x literal format specification x amount class) into a fault-injecting fmt::Write sink; everything is derived from the run seed = f(VERIF_SEED, run index). A run is non-trivial if the simulation dimension was exercised in it: a thread switch in the middle of a display (at a sink write or at a library allocation), a fired sink error, a fired (and caught) sink panic, or a re-entrant display issued by the sink; runs are distinct by (operation lists, schedule trace) hash. Oracle: every display that completed Ok on a sink that never failed must have delivered exactly the reference-model text (sim/src/model.rs), plus parse-back and fractional-digit checks that bypass the model.",
+  "rule": "one evaluation = one simulated run: 1-4 real caller threads (only one runs at a time; the simulator decides at every sink write, at every operation boundary and - in about half of the multi-threaded runs - at every allocation the library makes inside a display (and, in the f64-fnseam configuration, at every function entry and atomic operation of the library's display path), who proceeds), each performing 1-5 Display operations (quantity value / unit / rate x literal format specification x amount class) into a fault-injecting fmt::Write sink; most runs are executed by long-lived worker processes, one eighth as many again by short-lived ('cold') processes of 6 runs each; everything is derived from the run seed = f(VERIF_SEED, run index). A run is non-trivial if the simulation dimension was exercised in it: a thread switch in the middle of a display (at a sink write or at a library allocation), a fired sink error (sticky, or exactly one rejected write), a fired (and caught) sink panic, or a re-entrant display issued by the sink; runs are distinct by (operation lists, schedule trace) hash. Oracle: every display that completed Ok on a sink that never failed must have delivered exactly the reference-model text (sim/src/model.rs), plus parse-back and fractional-digit checks that bypass the model; a display that returns Ok although the sink refused one of its writes must nevertheless have delivered the model text.",
   "samples": samples,
   "simulated_runs": tot("runs") + sum(p["runs"] for p in sysparts),
   "seeded_search_runs": tot("runs"),
   "systematic_placement": {
-    "exhaustive_over": "every unit of every type x what meets the event {a negative value, the bare unit, a rate (plain specification) / a positive value} x 5 format specifications x sink write index 0..19 x event {sink error, sink panic caught, hand-over to a second caller thread that runs 5 displays, re-entrant display}, each followed by 5 probe displays (same unit, another type, the bare unit, a rate, the first value again)",
+    "exhaustive_over": "every unit of every type x what meets the event {a negative value, the bare unit, a rate (plain specification) / a positive value} x 5 format specifications x sink write index 0..19 x event {sink error, sink panic caught, hand-over to a second caller thread that runs 5 displays, re-entrant display, exactly one rejected write}, each followed by 5 probe displays (same unit, another type, the bare unit, a rate, the first value again)",
     "exhaustive": True,
     "per_backend": [{"backend": p["backend"], "plans": p["runs"], "display_operations_judged": p["ops_judged"], "faults_fired": p["faults_fired"], "thread_switches_inside_a_display": p["thread_switches_inside_a_display"], "violations": p["violations"], "wall_s": p["wall_s"]} for p in sysparts],
   },
